@@ -282,6 +282,62 @@ def run(seed=0, rounds=3):
         admits("any dim 1", lambda I, a: M["any"](I, a, 1), lambda a: a.any(1), [(b, "bool")], any_insts)
         admits("any dim 1 (witness form)", lambda I, a: M["any"](I, a, 1), lambda a: a.any(1), [(b, "bool")],
                lambda I: [x_ for an in I.ex.ghost.get("anys", []) for o in range(3) for x_ in [an["witness"]([z3.IntVal(o)])] + [an["intro"]([z3.IntVal(o)], z3.IntVal(j)) for j in range(3)]])
+        # row-major compaction (masked_select / masked_scatter) and max over a vector: the contracts, with every instance over the
+        # concrete extents, must admit what torch computes - and must determine it (the compaction contract is meant to be exact)
+        def cmp_insts(I):
+            import itertools
+
+            out = []
+            for rec in I.ex.ghost.get("compactions", []):
+                dims = [z3.simplify(d).as_long() for d in rec["dims"]]
+                for j in range(len(dims)):
+                    for pre_ in itertools.product(*[range(d) for d in dims[:j]]):
+                        pz = [z3.IntVal(a) for a in pre_]
+                        out.append(rec["base"](j, pz))
+                        out += [rec["step"](j, pz, z3.IntVal(i)) for i in range(dims[j])]
+                if rec.get("kind") == "select":
+                    tot = 1
+                    for d in dims:
+                        tot *= d
+                    out += [rec["sel"](z3.IntVal(k)) for k in range(tot + 1)]
+                    out += [rec["inj"]([z3.IntVal(a) for a in idx]) for idx in itertools.product(*[range(d) for d in dims])]
+            return out
+
+        for nm_, xs_, bs_ in (("rank 2", x, b), ("rank 3", x3, rt((A, Bd, C), "bool"))):
+            n[0] += 1
+            I_ = _mk()
+            sx, fx = _table(xs_, "float")
+            sb, fb = _table(bs_, "bool")
+            try:
+                sel_m = M["masked_select"](I_, sx, sb)
+                nat = xs_.masked_select(bs_)
+                base_ = torch.zeros_like(xs_) - 7
+                sc_m = M["masked_scatter"](I_, _table(base_, "float")[0], sb, sel_m)
+                nat_sc = base_.masked_scatter(bs_, nat)
+                from .interp import has_quantifier, to_z3
+
+                hy = fx + fb + _table(base_, "float")[1] + [h for h in I_.ex.pc if not has_quantifier(h)] + cmp_insts(I_)
+                claim = [to_z3(sel_m.shape[0]) == len(nat)] + [to_z3(sel_m.elem(z3.IntVal(k))) == _val(float(nat[k])) for k in range(len(nat))]
+                sol = z3.Solver()
+                sol.set("timeout", 20000)
+                sol.add(hy + [z3.Not(z3.And(claim))])
+                if sol.check() != z3.unsat:
+                    bad.append("masked_select %s: the compaction contract does not determine torch's result" % nm_)
+                eq2 = _all_equal(sc_m, nat_sc)
+                sol = z3.Solver()
+                sol.set("timeout", 20000)
+                sol.add(hy + [z3.Not(z3.And(eq2)) if eq2 else z3.BoolVal(True)])
+                if eq2 is None or sol.check() != z3.unsat:
+                    bad.append("masked_scatter %s: the compaction contract does not determine torch's result" % nm_)
+                sol = z3.Solver()
+                sol.set("timeout", 20000)
+                sol.add(hy)
+                if sol.check() == z3.unsat:
+                    bad.append("masked_select %s: the compaction contract is contradictory on a concrete mask" % nm_)
+            except Exception as e:
+                bad.append("masked_select %s: %s: %s" % (nm_, type(e).__name__, str(e)[:120]))
+        admits("max over a vector", lambda I, a: M["max"](I, a), lambda a: a.max(), [(rt((Bd,), "long"), "long")],
+               lambda I: [mx["ub"](z3.IntVal(j)) for mx in I.ex.ghost.get("maxes", []) for j in range(3)])
         admits("integer sum dim 1", lambda I, a: M["sum"](I, a, 1), lambda a: a.sum(1), [(xi, "long")], sum_insts)
         admits("Boolean sum dim 1", lambda I, a: M["sum"](I, a, 1), lambda a: a.sum(1), [(b, "bool")], sum_insts)
 
